@@ -267,6 +267,10 @@ struct BfsOptions {
 	int maxDepth = 4;
 	int innerBudget = 0;
 	size_t maxStates = 5000000;
+	// When the harness key is the reference model alone (no snapshot of the implementation), two histories that end in the
+	// same model state may still differ in the implementation (a latent corruption). Tagging the key with the last operation
+	// (and a harness-supplied outcome tag) keeps such states apart, so every distinct (operation -> state) edge is expanded once.
+	bool keyIncludesLastOp = false;
 };
 
 struct BfsResult {
@@ -294,13 +298,17 @@ public:
 	Bfs(Ctx & c, BfsOptions o) : ctx(c), opt(o) {}
 
 	// start of a step: which operation
-	int chooseOp(int nOps) { return ctx.ex.choose(nOps, nOps, K_OP); }
+	int lastOp = -1; std::string outcomeTag;
+	int chooseOp(int nOps) { lastOp = ctx.ex.choose(nOps, nOps, K_OP); outcomeTag.clear(); return lastOp; }
+	// optional: something about how the operation ended that the model does not show (e.g. "an injected fault fired")
+	void tagOutcome(const std::string & t) { outcomeTag += t; }
 
 	// the step turned out not to be applicable in this state: abandon the execution
 	[[noreturn]] void skip() { throw Stop{}; }
 
 	// end of a step (also called once before the first step with the initial key)
-	void stepEnd(const std::string & key) {
+	void stepEnd(const std::string & modelKey) {
+		const std::string key = opt.keyIncludesLastOp ? modelKey + fmt("#op%d", lastOp) + outcomeTag : modelKey;
 		Explorer & ex = ctx.ex;
 		if(ctx.failed) throw Stop{};
 		if(!ex.beyondPrefix()) {
